@@ -1,34 +1,48 @@
 // Harness for C17: reducers and map-reduce arrival order / grouping.
 //
-// Line formats are documented in lean/PV/C17/Main.lean. A line without the `e2e` prefix folds
-// the real reduce functions over the given groups exactly as mapperLocal / mapReduce do (each
-// group from nil, then the group results from nil). A line with the `e2e` prefix (exactly one
-// group) builds a dataset whose per-shard results are the listed ones on an in-process server
-// with a one-worker pool, runs the real query with QueryRequest.Shards in the listed arrival
-// order and prints the query result.
+// Line formats are documented in lean/PV/C17/Main.lean. Three kinds of line:
+//
+//   - plain (`vc add <groups>`, `rowids 3 <groups>`, `rows <groups>` …): folds the REAL reduce
+//     functions over the given groups exactly as mapperLocal / mapReduce do (each group from nil,
+//     then the group results from nil, in the listed arrival order);
+//   - `e2e <op> … <one group>`: builds a dataset whose per-shard results are the listed ones on an
+//     in-process server with a one-worker pool (arrival order = order of QueryRequest.Shards), runs
+//     the real query with the shards in the listed arrival order and prints the query result;
+//   - `cl <nodes> <replicas> <op> … <one group>`: the same dataset on a real in-process multi-node
+//     cluster (gossip-joined server.Commands, shards placed by the cluster's own hashing, remote
+//     nodes reached through the real HTTP internal client); the query is run through EVERY node as
+//     coordinator; the answers must all be equal (else `disagree:a/b/c` is printed) and equal the
+//     model's.
 package main
 
 import (
 	"context"
 	"fmt"
+	"os"
 	"sort"
 	"strconv"
 	"strings"
+	"time"
 
 	"github.com/pilosa/pilosa"
 	"verifharness/vh"
 	"verifharness/vh/srv"
+	"verifharness/vh/srv2"
 )
 
 type prop struct {
 	s   *srv.Server
+	cl  *srv2.Cluster
+	clN int
+	clR int
 	idx int
 }
 
 func (p *prop) Rule() string {
 	return "groups of per-shard partial results (values and ids drawn from tiny ranges so ties and shared extremes are frequent; " +
-		"empty shards included) folded in the listed arrival order; a case is non-trivial when it has >= 2 partial results and " +
-		"at least two of them share a value/id or the op has a limit smaller than the union; e2e lines run the real executor on a dataset realising the partial results"
+		"empty shards included) folded in the listed arrival order; a case is non-trivial when it has >= 2 partial results; " +
+		"e2e lines run the real executor (one worker, chosen arrival order) on a dataset realising the partial results; " +
+		"cl lines run it on a real 2-3 node in-process cluster through every node as coordinator"
 }
 
 func splitNE(s, sep string) []string {
@@ -66,7 +80,30 @@ func genSortedSet(r *vh.Rng, max, pnum int) []uint64 {
 	return out
 }
 
-func genGroups(r *vh.Rng, single bool, item func(*vh.Rng) string) (string, int) {
+func csvOrEmpty(xs []uint64) string {
+	ss := make([]string, len(xs))
+	for i, x := range xs {
+		ss[i] = strconv.FormatUint(x, 10)
+	}
+	return strings.Join(ss, ",")
+}
+
+// genRow: a row with 0..3 segments over shards 0..3 (ascending), columns from 0..5, empty
+// segments allowed (fragments return a segment even for an empty row).
+func genRow(r *vh.Rng) string {
+	var segs []string
+	for sh := 0; sh < 4; sh++ {
+		if r.Chance(4, 10) {
+			segs = append(segs, fmt.Sprintf("%d:%s", sh, csvOrEmpty(genSortedSet(r, 5, r.Pick(0, 3, 5)))))
+		}
+	}
+	if len(segs) == 0 {
+		return "_"
+	}
+	return strings.Join(segs, "+")
+}
+
+func genGroups(r *vh.Rng, single bool, item func(*vh.Rng, int) string) (string, int) {
 	ng := r.Range(1, 3)
 	if single {
 		ng = 1
@@ -80,7 +117,8 @@ func genGroups(r *vh.Rng, single bool, item func(*vh.Rng) string) (string, int) 
 		}
 		var items []string
 		for i := 0; i < n; i++ {
-			items = append(items, item(r))
+			// the second argument is the shard an e2e/cl line will use for this item
+			items = append(items, item(r, n-1-i))
 		}
 		total += n
 		if n == 0 {
@@ -94,38 +132,62 @@ func genGroups(r *vh.Rng, single bool, item func(*vh.Rng) string) (string, int) 
 
 func (p *prop) Gen(r *vh.Rng, tier string, n int) []vh.Case {
 	var cases []vh.Case
+	// one cluster shape per stream, so a stream starts at most one cluster
+	clN := r.Pick(2, 3, 3)
+	clR := r.Pick(1, 1, 2)
 	for k := 0; k < n; k++ {
 		cr := r.Fork()
-		e2e := cr.Chance(1, 8)
+		// Lines that run the real executor cost ~0.1-0.2 s each (index + fragments on disk), a
+		// reducer-level line costs microseconds: the quick tier keeps the former to a few dozen per
+		// stream and cluster lines to a handful; the thorough tier runs many more of both.
+		e2eDen, clDen := 20, 250
+		if tier == "thorough" {
+			e2eDen, clDen = 15, 60
+		}
+		mode := ""
+		switch {
+		case cr.Chance(1, e2eDen):
+			mode = "e2e"
+		case cr.Chance(1, clDen):
+			mode = "cl"
+		}
+		real := mode != ""
 		var line string
 		var total int
-		switch cr.Intn(6) {
+		// the MinRow/MaxRow and bool reducers are closures inside the executor, so `pair` and `bool`
+		// lines always run the real executor: they are only generated in the executor modes
+		op := cr.Pick(0, 0, 0, 2, 2, 3, 3, 3, 3, 4, 4, 4, 4, 5, 5, 5, 6, 6, 6, 6, 6)
+		if real {
+			op = cr.Pick(0, 0, 1, 1, 1, 2, 3, 3, 4, 4, 5, 5, 6, 6, 6, 7)
+		}
+		switch op {
 		case 0:
 			var g string
-			g, total = genGroups(cr, e2e, genVC)
+			g, total = genGroups(cr, real, func(r *vh.Rng, _ int) string { return genVC(r) })
 			line = "vc " + cr.PickS("add", "smaller", "larger") + " " + g
 		case 1:
 			var g string
-			g, total = genGroups(cr, e2e, genPair)
+			g, total = genGroups(cr, real, func(r *vh.Rng, _ int) string { return genPair(r) })
 			line = "pair " + cr.PickS("minrow", "maxrow") + " " + g
 		case 2:
 			var g string
-			g, total = genGroups(cr, e2e, func(r *vh.Rng) string { return strconv.Itoa(r.Range(0, 3)) })
+			g, total = genGroups(cr, real, func(r *vh.Rng, _ int) string { return strconv.Itoa(r.Range(0, 3)) })
 			line = "count " + g
 		case 3:
 			lim := cr.Range(1, 6)
 			var g string
-			g, total = genGroups(cr, e2e, func(r *vh.Rng) string { return vh.CSV(genSortedSet(r, 7, 4)) })
+			g, total = genGroups(cr, real, func(r *vh.Rng, _ int) string { return vh.CSV(genSortedSet(r, 7, 4)) })
 			line = fmt.Sprintf("rowids %d %s", lim, g)
 		case 4:
-			e2e = false
 			lim := cr.Range(1, 6)
 			var g string
-			g, total = genGroups(cr, false, func(r *vh.Rng) string {
+			g, total = genGroups(cr, real, func(r *vh.Rng, _ int) string {
 				var gcs []string
 				for a := 0; a < 3; a++ {
 					for b := 0; b < 3; b++ {
-						if r.Chance(3, 10) && len(gcs) < lim {
+						// reducer level: every shard result is the first `lim` groups of the shard
+						// (a prefix of its full list); e2e/cl: the FULL list — the executor truncates
+						if r.Chance(3, 10) && (real || len(gcs) < lim) {
 							gcs = append(gcs, fmt.Sprintf("%d.%d:%d", a, b, r.Range(1, 3)))
 						}
 					}
@@ -138,7 +200,7 @@ func (p *prop) Gen(r *vh.Rng, tier string, n int) []vh.Case {
 			line = fmt.Sprintf("groupcounts %d %s", lim, g)
 		case 5:
 			var g string
-			g, total = genGroups(cr, e2e, func(r *vh.Rng) string {
+			g, total = genGroups(cr, real, func(r *vh.Rng, _ int) string {
 				var ps []string
 				for id := 0; id < 4; id++ {
 					if r.Chance(5, 10) {
@@ -151,9 +213,33 @@ func (p *prop) Gen(r *vh.Rng, tier string, n int) []vh.Case {
 				return strings.Join(ps, ",")
 			})
 			line = "pairs " + g
+		case 6:
+			var g string
+			if real {
+				// one single-segment row per shard, the shard being the one the dataset uses
+				g, total = genGroups(cr, true, func(r *vh.Rng, shard int) string {
+					return fmt.Sprintf("%d:%s", shard, csvOrEmpty(genSortedSet(r, 5, r.Pick(0, 3, 5))))
+				})
+				line = cr.PickS("rows", "rowsu") + " " + g
+			} else {
+				g, total = genGroups(cr, false, func(r *vh.Rng, _ int) string { return genRow(r) })
+				line = "rows " + g
+			}
+		case 7:
+			if mode == "cl" {
+				mode = "e2e" // ClearRow is a write: one coordinator only
+			}
+			var g string
+			g, total = genGroups(cr, real, func(r *vh.Rng, _ int) string { return r.PickS("t", "f", "f") })
+			line = "bool " + g
 		}
-		if e2e {
-			line = "e2e " + line
+		switch mode {
+		case "e2e":
+			if (op != 1 && op != 7) || cr.Bool() { // `pair`/`bool` lines run the executor with or without the prefix
+				line = "e2e " + line
+			}
+		case "cl":
+			line = fmt.Sprintf("cl %d %d %s", clN, clR, line)
 		}
 		cases = append(cases, vh.Case{Lines: []string{line}, Nontrivial: total >= 2})
 	}
@@ -191,6 +277,29 @@ func parseGCs(s string) []pilosa.GroupCount {
 	return out
 }
 
+const sw = pilosa.ShardWidth
+
+// parseRowSegs parses `_` or `shard:c,c+shard:c` into shards and ABSOLUTE column ids.
+func parseRowSegs(s string) (shards []uint64, cols [][]uint64) {
+	if s == "_" {
+		return nil, nil
+	}
+	for _, seg := range strings.Split(s, "+") {
+		p := strings.SplitN(seg, ":", 2)
+		sh, err := strconv.ParseUint(p[0], 10, 64)
+		if err != nil || len(p) != 2 {
+			panic("bad segment " + seg)
+		}
+		var cs []uint64
+		for _, c := range vh.ParseCSV(p[1]) {
+			cs = append(cs, sh*sw+c)
+		}
+		shards = append(shards, sh)
+		cols = append(cols, cs)
+	}
+	return shards, cols
+}
+
 func showVC(v pilosa.ValCount) string { return fmt.Sprintf("%d:%d", v.Val, v.Count) }
 func showPair(p pilosa.Pair) string   { return fmt.Sprintf("%d:%d", p.ID, p.Count) }
 func showPairs(ps []pilosa.Pair) string {
@@ -214,10 +323,44 @@ func showGCs(gs []pilosa.GroupCount) string {
 	return strings.Join(ss, " ")
 }
 
-// pairReduce reproduces the closure in executeMinRow/executeMaxRow? No: closures cannot be
-// called from outside, so reducer-level `pair` lines go through the executor as well (one node,
-// one worker): each listed group becomes one query over its shards and the group results are
-// combined by a second query over all shards in group-major arrival order. See execPairGroups.
+// showRow prints the segments of a row exactly as they are (order, duplicates, empties).
+// With colsOnly, empty segments are skipped: a segment without bits is kept by a local reduce
+// and dropped by the protobuf transport of a remote node's result; it is not part of any API
+// encoding of a row (Columns()).
+func showRow(r *pilosa.Row, colsOnly bool) string {
+	if r == nil {
+		return "nil-row"
+	}
+	shards, cols := pilosa.VerifC17RowSegments(r)
+	if colsOnly {
+		var s2 []uint64
+		var c2 [][]uint64
+		for i := range shards {
+			if len(cols[i]) > 0 {
+				s2, c2 = append(s2, shards[i]), append(c2, cols[i])
+			} else {
+				vh.Count("empty-segment-in-result")
+			}
+		}
+		shards, cols = s2, c2
+	}
+	if len(shards) == 0 {
+		return "_"
+	}
+	ss := make([]string, len(shards))
+	for i, sh := range shards {
+		cs := make([]string, len(cols[i]))
+		for j, c := range cols[i] {
+			if c/sw != sh {
+				cs[j] = fmt.Sprintf("foreign%d", c)
+			} else {
+				cs[j] = strconv.FormatUint(c%sw, 10)
+			}
+		}
+		ss[i] = fmt.Sprintf("%d:%s", sh, strings.Join(cs, ","))
+	}
+	return strings.Join(ss, "+")
+}
 
 func fold[T any](groups [][]T, zero T, f func(a, b T) T) T {
 	res := zero
@@ -252,13 +395,69 @@ func (p *prop) Exec(lines []string) []string {
 	return outs
 }
 
+func flattenGroups(gspec string) []string {
+	var flat []string
+	for _, g := range parseGroups(gspec, func(s string) string { return s }) {
+		flat = append(flat, g...)
+	}
+	return flat
+}
+
+func (p *prop) single() backend {
+	if p.s == nil {
+		p.s = srv.Start(1)
+	}
+	return singleBE{p.s}
+}
+
+func (p *prop) cluster(n, r int) (backend, error) {
+	if p.cl != nil && (p.clN != n || p.clR != r) {
+		p.cl.Stop()
+		p.cl = nil
+	}
+	if p.cl == nil {
+		c, err := srv2.Start(n, r, 2)
+		if err != nil {
+			return nil, err
+		}
+		p.cl, p.clN, p.clR = c, n, r
+		vh.Count(fmt.Sprintf("cluster-start-%dx%d", n, r))
+	}
+	if !p.cl.WaitNormal(30 * time.Second) {
+		// a node was declared dead (overloaded machine): start afresh
+		vh.Count("cluster-restart")
+		p.cl.Stop()
+		p.cl = nil
+		return p.cluster(n, r)
+	}
+	return clusterBE{p.cl}, nil
+}
+
 func (p *prop) execLine(l string) string {
 	ws := strings.Fields(l)
 	if len(ws) == 0 {
 		return "bad-op"
 	}
 	if ws[0] == "e2e" {
-		return p.execE2E(ws[1:])
+		if len(ws) > 1 && (ws[1] == "e2e" || ws[1] == "cl") {
+			return "bad-op"
+		}
+		return p.execE2E(ws[1:], p.single())
+	}
+	if ws[0] == "cl" {
+		if len(ws) < 4 || ws[3] == "e2e" || ws[3] == "cl" {
+			return "bad-op"
+		}
+		n, err1 := strconv.Atoi(ws[1])
+		r, err2 := strconv.Atoi(ws[2])
+		if err1 != nil || err2 != nil || n < 1 || n > 5 || r < 1 || r > n {
+			return "bad-op"
+		}
+		be, err := p.cluster(n, r)
+		if err != nil {
+			return "err:cluster-start"
+		}
+		return p.execE2E(ws[3:], be)
 	}
 	switch {
 	case ws[0] == "vc" && len(ws) == 3:
@@ -272,15 +471,17 @@ func (p *prop) execLine(l string) string {
 		}))
 	case ws[0] == "pair" && len(ws) == 3:
 		// reducer closures live inside the executor: run flattened through the executor.
-		gs := parseGroups(ws[2], func(s string) string { return s })
-		var flat []string
-		for _, g := range gs {
-			flat = append(flat, g...)
-		}
+		flat := flattenGroups(ws[2])
 		if len(flat) == 0 {
 			return "0:0"
 		}
-		return p.execE2E([]string{"pair", ws[1], strings.Join(flat, ";")})
+		return p.execE2E([]string{"pair", ws[1], strings.Join(flat, ";")}, p.single())
+	case ws[0] == "bool" && len(ws) == 2:
+		flat := flattenGroups(ws[1])
+		if len(flat) == 0 {
+			return "nil"
+		}
+		return p.execE2E([]string{"bool", strings.Join(flat, ";")}, p.single())
 	case ws[0] == "count" && len(ws) == 2:
 		gs := parseGroups(ws[1], func(s string) uint64 { v, _ := strconv.ParseUint(s, 10, 64); return v })
 		return strconv.FormatUint(fold(gs, 0, func(a, b uint64) uint64 { return a + b }), 10)
@@ -314,13 +515,90 @@ func (p *prop) execLine(l string) string {
 			return pilosa.Pairs(a).Add(b)
 		})
 		return showPairs(res)
+	case (ws[0] == "rows" || ws[0] == "rowsu") && len(ws) == 2:
+		// the reduceFn of executeBitmapCall: prev == nil -> NewRow(); prev.Merge(v); return prev
+		gs := parseGroups(ws[1], func(s string) *pilosa.Row {
+			return pilosa.VerifC17NewRow(parseRowSegs(s))
+		})
+		res := fold(gs, (*pilosa.Row)(nil), func(a, b *pilosa.Row) *pilosa.Row {
+			if a == nil {
+				a = pilosa.NewRow()
+			}
+			if b == nil { // an empty group: the node result of no shards
+				b = pilosa.NewRow()
+			}
+			a.Merge(b)
+			return a
+		})
+		if res == nil {
+			return "_"
+		}
+		return showRow(res, false)
 	}
 	return "bad-op"
 }
 
-const sw = pilosa.ShardWidth
+// ---------- real executor: one node or a cluster ----------
 
-func (p *prop) execE2E(ws []string) string {
+type backend interface {
+	API() *pilosa.API
+	N() int
+	Query(i int, index, q string, shards []uint64) ([]interface{}, error)
+	Recalc() error
+}
+
+type singleBE struct{ s *srv.Server }
+
+func (b singleBE) API() *pilosa.API { return b.s.Command.API }
+func (b singleBE) N() int           { return 1 }
+func (b singleBE) Query(_ int, index, q string, shards []uint64) ([]interface{}, error) {
+	return b.s.Query(index, q, shards)
+}
+func (b singleBE) Recalc() error { return b.s.Command.API.RecalculateCaches(context.Background()) }
+
+type clusterBE struct{ c *srv2.Cluster }
+
+func (b clusterBE) API() *pilosa.API { return b.c.Nodes[0].API }
+func (b clusterBE) N() int           { return len(b.c.Nodes) }
+func (b clusterBE) Query(i int, index, q string, shards []uint64) ([]interface{}, error) {
+	return b.c.Query(i, index, q, shards)
+}
+func (b clusterBE) Recalc() error {
+	for _, m := range b.c.Nodes {
+		if err := m.API.RecalculateCaches(context.Background()); err != nil {
+			return err
+		}
+	}
+	return nil
+}
+
+// execE2E runs one executor line. On a cluster, a failing schema broadcast or data load (an
+// infrastructure error of the in-process cluster on a loaded machine, before any query is
+// asked) is retried on a fresh index; a query answer is never retried.
+func (p *prop) execE2E(ws []string, be backend) string {
+	out := p.execE2EOnce(ws, be)
+	for try := 0; try < 3 && be.N() > 1 && (out == "err:create-index" || out == "err:create-field" || out == "err:load"); try++ {
+		vh.Count("cluster-setup-retry")
+		time.Sleep(200 * time.Millisecond)
+		p.cl.WaitNormal(30 * time.Second)
+		out = p.execE2EOnce(ws, be)
+	}
+	return out
+}
+
+type loadError struct{ err error }
+
+func (p *prop) execE2EOnce(ws []string, be backend) (out string) {
+	defer func() {
+		if e := recover(); e != nil {
+			le, ok := e.(loadError)
+			if !ok {
+				panic(e)
+			}
+			fmt.Fprintln(os.Stderr, "c17: load:", le.err)
+			out = "err:load"
+		}
+	}()
 	if len(ws) < 2 {
 		return "bad-op"
 	}
@@ -329,14 +607,12 @@ func (p *prop) execE2E(ws []string) string {
 		return "bad-op"
 	}
 	items := splitNE(gspec, ";")
-	if p.s == nil {
-		p.s = srv.Start(1)
-	}
 	p.idx++
 	index := fmt.Sprintf("i%d", p.idx)
 	ctx := context.Background()
-	api := p.s.API
+	api := be.API()
 	if _, err := api.CreateIndex(ctx, index, pilosa.IndexOptions{TrackExistence: true}); err != nil {
+		fmt.Fprintln(os.Stderr, "c17: create index:", err)
 		return "err:create-index"
 	}
 	defer api.DeleteIndex(ctx, index)
@@ -348,19 +624,50 @@ func (p *prop) execE2E(ws []string) string {
 	}
 	var sets []string
 	col := func(shard uint64, k int) uint64 { return shard*sw + uint64(k)*70000%sw }
-	mustQ := func(q string, shards []uint64) []interface{} {
-		res, err := p.s.Query(index, q, shards)
-		if err != nil {
-			panic(err)
+	load := func() {
+		if len(sets) > 0 {
+			if _, err := be.Query(0, index, strings.Join(sets, "\n"), nil); err != nil {
+				panic(loadError{err})
+			}
 		}
-		return res
+	}
+	// ask runs the query through every coordinator; all answers must agree.
+	ask := func(q string, shards []uint64, render func(res []interface{}) string) string {
+		outs := make([]string, be.N())
+		same := true
+		for i := range outs {
+			res, err := be.Query(i, index, q, shards)
+			if err != nil {
+				fmt.Fprintln(os.Stderr, "c17: query via node", i, ":", err)
+				outs[i] = "err:query"
+			} else {
+				outs[i] = vh.Guard("render", func() string { return render(res) })
+			}
+			if outs[i] != outs[0] {
+				same = false
+			}
+		}
+		if be.N() > 1 {
+			vh.Count("cluster-query")
+		}
+		if !same {
+			return "disagree:" + strings.Join(outs, "/")
+		}
+		return outs[0]
+	}
+	mkField := func(name string, opts ...pilosa.FieldOption) bool {
+		_, err := api.CreateField(ctx, index, name, opts...)
+		if err != nil {
+			fmt.Fprintln(os.Stderr, "c17: create field:", err)
+		}
+		return err == nil
 	}
 	switch ws[0] {
 	case "vc":
 		if len(ws) != 3 {
 			return "bad-op"
 		}
-		if _, err := api.CreateField(ctx, index, "v", pilosa.OptFieldTypeInt(-1000, 1000)); err != nil {
+		if !mkField("v", pilosa.OptFieldTypeInt(-1000, 1000)) {
 			return "err:create-field"
 		}
 		for j, it := range items {
@@ -384,23 +691,17 @@ func (p *prop) execE2E(ws []string) string {
 				sets = append(sets, fmt.Sprintf("Set(%d, v=%d)", col(sh, 9), noise))
 			}
 		}
-		if len(sets) > 0 {
-			mustQ(strings.Join(sets, "\n"), nil)
-		}
+		load()
 		q := map[string]string{"add": "Sum(field=v)", "smaller": "Min(field=v)", "larger": "Max(field=v)"}[ws[1]]
 		if q == "" {
 			return "bad-op"
 		}
-		res := mustQ(q, order)
-		return showVC(res[0].(pilosa.ValCount))
+		return ask(q, order, func(res []interface{}) string { return showVC(res[0].(pilosa.ValCount)) })
 	case "pair":
 		if len(ws) != 3 {
 			return "bad-op"
 		}
-		if _, err := api.CreateField(ctx, index, "f", pilosa.OptFieldTypeSet("ranked", 100)); err != nil {
-			return "err:create-field"
-		}
-		if _, err := api.CreateField(ctx, index, "g", pilosa.OptFieldTypeSet("ranked", 100)); err != nil {
+		if !mkField("f", pilosa.OptFieldTypeSet("ranked", 100)) || !mkField("g", pilosa.OptFieldTypeSet("ranked", 100)) {
 			return "err:create-field"
 		}
 		for j, it := range items {
@@ -426,25 +727,24 @@ func (p *prop) execE2E(ws []string) string {
 				sets = append(sets, fmt.Sprintf("Set(%d, f=%d)", col(sh, 11), out))
 			}
 		}
-		if len(sets) > 0 {
-			mustQ(strings.Join(sets, "\n"), nil)
-		}
+		load()
 		q := map[string]string{"minrow": "MinRow(Row(g=0), field=f)", "maxrow": "MaxRow(Row(g=0), field=f)"}[ws[1]]
 		if q == "" {
 			return "bad-op"
 		}
-		res := mustQ(q, order)
-		pr, _ := res[0].(pilosa.Pair)
-		if pr.Count > 0 {
-			// rows are stored shifted by one (row 0 is the minrow noise row outside... see above)
-			if pr.ID == 0 {
-				return "err:noise-row-returned"
+		return ask(q, order, func(res []interface{}) string {
+			pr, _ := res[0].(pilosa.Pair)
+			if pr.Count > 0 {
+				// rows are stored shifted by one (row 0 is a noise row)
+				if pr.ID == 0 {
+					return "err:noise-row-returned"
+				}
+				pr.ID--
 			}
-			pr.ID--
-		}
-		return showPair(pr)
+			return showPair(pr)
+		})
 	case "count":
-		if _, err := api.CreateField(ctx, index, "f", pilosa.OptFieldTypeSet("ranked", 100)); err != nil {
+		if !mkField("f", pilosa.OptFieldTypeSet("ranked", 100)) {
 			return "err:create-field"
 		}
 		for j, it := range items {
@@ -454,14 +754,37 @@ func (p *prop) execE2E(ws []string) string {
 			}
 			sets = append(sets, fmt.Sprintf("Set(%d, f=2)", col(order[j], 9)))
 		}
-		mustQ(strings.Join(sets, "\n"), nil)
-		res := mustQ("Count(Row(f=1))", order)
-		return strconv.FormatUint(res[0].(uint64), 10)
+		load()
+		return ask("Count(Row(f=1))", order, func(res []interface{}) string {
+			return strconv.FormatUint(res[0].(uint64), 10)
+		})
+	case "bool":
+		if !mkField("f", pilosa.OptFieldTypeSet("ranked", 100)) {
+			return "err:create-field"
+		}
+		for j, it := range items {
+			if it == "t" {
+				sets = append(sets, fmt.Sprintf("Set(%d, f=1)", col(order[j], 1)))
+			} else if it != "f" {
+				return "bad-op"
+			}
+			sets = append(sets, fmt.Sprintf("Set(%d, f=2)", col(order[j], 9)))
+		}
+		load()
+		// a write: one coordinator only
+		res, err := be.Query(0, index, "ClearRow(f=1)", order)
+		if err != nil {
+			return "err:query"
+		}
+		if res[0].(bool) {
+			return "t"
+		}
+		return "f"
 	case "rowids":
 		if len(ws) != 3 {
 			return "bad-op"
 		}
-		if _, err := api.CreateField(ctx, index, "f", pilosa.OptFieldTypeSet("ranked", 100)); err != nil {
+		if !mkField("f", pilosa.OptFieldTypeSet("ranked", 100)) {
 			return "err:create-field"
 		}
 		for j, it := range items {
@@ -469,14 +792,36 @@ func (p *prop) execE2E(ws []string) string {
 				sets = append(sets, fmt.Sprintf("Set(%d, f=%d)", col(order[j], k), row))
 			}
 		}
-		if len(sets) > 0 {
-			mustQ(strings.Join(sets, "\n"), nil)
+		load()
+		return ask(fmt.Sprintf("Rows(field=f, limit=%s)", ws[1]), order, func(res []interface{}) string {
+			return vh.U64s(res[0].(pilosa.RowIdentifiers).Rows)
+		})
+	case "groupcounts":
+		if len(ws) != 3 {
+			return "bad-op"
 		}
-		res := mustQ(fmt.Sprintf("Rows(field=f, limit=%s)", ws[1]), order)
-		ids := res[0].(pilosa.RowIdentifiers)
-		return vh.U64s(ids.Rows)
+		if !mkField("a", pilosa.OptFieldTypeSet("ranked", 100)) || !mkField("b", pilosa.OptFieldTypeSet("ranked", 100)) {
+			return "err:create-field"
+		}
+		for j, it := range items {
+			k := 0
+			for _, gc := range parseGCs(it) {
+				if len(gc.Group) != 2 {
+					return "bad-op"
+				}
+				for c := 0; c < int(gc.Count); c++ {
+					sets = append(sets, fmt.Sprintf("Set(%d, a=%d)", col(order[j], k), gc.Group[0].RowID))
+					sets = append(sets, fmt.Sprintf("Set(%d, b=%d)", col(order[j], k), gc.Group[1].RowID))
+					k++
+				}
+			}
+		}
+		load()
+		return ask(fmt.Sprintf("GroupBy(Rows(field=a), Rows(field=b), limit=%s)", ws[1]), order, func(res []interface{}) string {
+			return showGCs(res[0].([]pilosa.GroupCount))
+		})
 	case "pairs":
-		if _, err := api.CreateField(ctx, index, "f", pilosa.OptFieldTypeSet("ranked", 100)); err != nil {
+		if !mkField("f", pilosa.OptFieldTypeSet("ranked", 100)) {
 			return "err:create-field"
 		}
 		for j, it := range items {
@@ -489,14 +834,46 @@ func (p *prop) execE2E(ws []string) string {
 				}
 			}
 		}
-		if len(sets) > 0 {
-			mustQ(strings.Join(sets, "\n"), nil)
-		}
-		if err := api.RecalculateCaches(ctx); err != nil {
+		load()
+		if err := be.Recalc(); err != nil {
 			return "err:recalculate"
 		}
-		res := mustQ("TopN(f)", order)
-		return showPairs(res[0].([]pilosa.Pair))
+		return ask("TopN(f)", order, func(res []interface{}) string { return showPairs(res[0].([]pilosa.Pair)) })
+	case "rows", "rowsu":
+		// one single-segment row per listed shard: `shard:c,c`; the arrival order is the listed one
+		if !mkField("f", pilosa.OptFieldTypeSet("ranked", 100)) {
+			return "err:create-field"
+		}
+		var shards []uint64
+		seen := map[uint64]bool{}
+		for k, it := range items {
+			shs, cols := parseRowSegs(it)
+			if len(shs) != 1 || seen[shs[0]] {
+				return "bad-op"
+			}
+			seen[shs[0]] = true
+			shards = append(shards, shs[0])
+			for i, c := range cols[0] {
+				switch {
+				case ws[0] == "rows":
+					sets = append(sets, fmt.Sprintf("Set(%d, f=1)", c))
+				case (i+k)%3 == 0:
+					sets = append(sets, fmt.Sprintf("Set(%d, f=1)", c))
+				case (i+k)%3 == 1:
+					sets = append(sets, fmt.Sprintf("Set(%d, f=2)", c))
+				default:
+					sets = append(sets, fmt.Sprintf("Set(%d, f=1)", c), fmt.Sprintf("Set(%d, f=2)", c))
+				}
+			}
+			// another row in every listed shard, so the fragment exists and returns a segment
+			sets = append(sets, fmt.Sprintf("Set(%d, f=9)", shs[0]*sw+77))
+		}
+		load()
+		q := "Row(f=1)"
+		if ws[0] == "rowsu" {
+			q = "Union(Row(f=1), Row(f=2))"
+		}
+		return ask(q, shards, func(res []interface{}) string { return showRow(res[0].(*pilosa.Row), true) })
 	}
 	return "bad-op"
 }
@@ -506,6 +883,9 @@ func main() {
 	defer func() {
 		if p.s != nil {
 			p.s.Stop()
+		}
+		if p.cl != nil {
+			p.cl.Stop()
 		}
 	}()
 	vh.Main(p)
